@@ -511,6 +511,36 @@ pub fn run(rep: &mut Report, tier: Tier) {
         rep.bounds["in_place"] = json!({"values": ns, "ordered_pairs": ns * ns});
         rep.absorb(t);
     }
+    // duplicate-key layouts over keys beyond the inline capacity of a key (16 bytes): every
+    // sequence of up to 5 members over three long keys and a short one (the collapse of duplicates
+    // - first position, last value - must not depend on the length or the order of the keys)
+    {
+        let ks = ["a-key-longer-than-sixteen-bytes-a", "a-key-longer-than-sixteen-bytes-c", "a-key-longer-than-sixteen-bytes-b", "s"];
+        let mut seqs: Vec<Vec<usize>> = vec![vec![]];
+        let mut frontier = seqs.clone();
+        for _ in 0..5 {
+            let mut next = Vec::new();
+            for q in &frontier {
+                for k in 0..ks.len() {
+                    let mut q2 = q.clone();
+                    q2.push(k);
+                    next.push(q2);
+                }
+            }
+            seqs.extend(next.iter().cloned());
+            frontier = next;
+        }
+        let count = seqs.len();
+        let t = explore::par_tally(seqs.chunks(64).map(|c| c.to_vec()).collect(), |chunk, t| {
+            for q in chunk {
+                let v = RV::Obj(q.iter().enumerate().map(|(i, &k)| (ks[k].to_string(), RV::num(&i.to_string()))).collect());
+                check_value(&v, t);
+                check_value(&RV::Arr(vec![v.clone(), RV::Obj(vec![("o".into(), v)])]), t);
+            }
+        });
+        rep.bounds["long_key_layouts"] = json!({"keys": ks, "max_members": 5, "objects": count});
+        rep.absorb(t);
+    }
     // keys that look reserved: the private tokens of the serde ecosystem (serde_json's raw-value
     // and number tokens, toml's datetime, serde_spanned's fields), near misses of the one token
     // the crate does reserve, and other sigil keys - as first, middle and last key, at the root
